@@ -33,6 +33,8 @@ def run(rep, facts, tier):
         n = r_surr.run(rep, f, c, 'R-SURR', lambda nm: 'Encoder::' in nm or nm.startswith(('handles::Utf16Source', 'handles::Utf8Source')))
         rep.floor('R-SURR', 'surrogate tests on the encoder side', n, 10, c)
         r_singlebyte.run(rep, f, c)
+        r_singlebyte.raw_copies(rep, f, c)
+        r_encclass.guarded_tables(rep, f, c, 'C03-D6')
         r_utf8store.run(rep, f, c)
         r_utf8asm.run(rep, f, c, scope='handles::', floor=15)
     return ('other', MANIFEST['text'], [])
